@@ -180,10 +180,7 @@ def sensitivity(sel, tier) -> int:
                 print(err[-1500:])
         finally:
             shutil.rmtree(top, ignore_errors=True)
-    try:
-        os.rmdir(os.path.dirname(top))
-    except OSError:
-        pass
+    shutil.rmtree(os.path.join(SCRATCH_TOP, f"ovmut-{os.getpid()}"), ignore_errors=True)
     print(f"sensitivity: {len(muts) - missed}/{len(muts)} mutants caught")
     return 1 if missed else 0
 
